@@ -32,7 +32,7 @@ def program_of(hist):
     n = max(scripts) if scripts else 0
     sl = [scripts.get(i, {"ops": [], "err": False, "notake": False, "take2": False}) for i in range(1, n + 1)]
     for s in steps:
-        if s["kind"] != "ops":
+        if s["kind"] not in ("ops", "frame"):
             s.pop("ops")
     return {"cfg": cfg, "steps": steps, "scripts": sl}
 
